@@ -35,6 +35,41 @@ Theorem C16_total_reference : forall line, parse_reference line <> Panic.
 Proof. exact parse_reference_total. Qed.
 Print Assumptions C16_total_reference.
 
+(* the for-each-ref line parser is lossless: whatever git wrote in the four fields comes back byte for byte — the name in
+   particular, which may hold and end in any byte but a blank (CR, TAB, the bytes of U+00A0 or U+3000, ...) *)
+Theorem C16_reference_lossless : forall oid typ ds name size,
+  length oid = 20%nat -> Forall (fun b => b < 256) oid ->
+  ~ In SP typ -> ~ In SP ds -> ~ In SP name -> parse_uint10 ds 64 = Some size ->
+  parse_reference (hex oid ++ SP :: typ ++ SP :: ds ++ SP :: name) = Ok (mk_reference name typ (sat32b size) oid).
+Proof. exact parse_reference_lossless. Qed.
+Print Assumptions C16_reference_lossless.
+
+(* ... and so is the cat-file header parser: `<oid> <type> <size>` followed by one more byte yields exactly these three *)
+Theorem C16_batch_header_lossless : forall oid typ ds e size,
+  length oid = 20%nat -> Forall (fun b => b < 256) oid ->
+  ~ In SP typ -> ~ In SP ds -> parse_uint10 ds 64 = Some size ->
+  parse_batch_header (hex oid ++ SP :: typ ++ SP :: ds ++ [e]) = Ok (mk_bheader oid typ (sat32b size)).
+Proof. exact parse_batch_header_lossless. Qed.
+Print Assumptions C16_batch_header_lossless.
+
+(* the closed forms: the size as git prints it (fmt %d) is read back (strconv.ParseUint) as that number, for every size below
+   2^64 — so the line git writes for (oid, type, size, name) parses to exactly (oid, type, min size (2^32-1), name) *)
+Theorem C16_decimal_roundtrip : forall n, n < 2 ^ 64 -> parse_uint10 (dec n) 64 = Some n.
+Proof. exact parse_uint10_dec. Qed.
+Print Assumptions C16_decimal_roundtrip.
+
+Theorem C16_reference_printed : forall oid typ name size,
+  length oid = 20%nat -> Forall (fun b => b < 256) oid -> ~ In SP typ -> ~ In SP name -> size < 2 ^ 64 ->
+  parse_reference (hex oid ++ SP :: typ ++ SP :: dec size ++ SP :: name) = Ok (mk_reference name typ (sat32b size) oid).
+Proof. exact parse_reference_printed. Qed.
+Print Assumptions C16_reference_printed.
+
+Theorem C16_batch_header_printed : forall oid typ size,
+  length oid = 20%nat -> Forall (fun b => b < 256) oid -> ~ In SP typ -> size < 2 ^ 64 ->
+  parse_batch_header (hex oid ++ SP :: typ ++ SP :: dec size ++ [10]) = Ok (mk_bheader oid typ (sat32b size)).
+Proof. exact parse_batch_header_printed. Qed.
+Print Assumptions C16_batch_header_printed.
+
 Theorem C16_total_batch_header : forall header, parse_batch_header header <> Panic.
 Proof. exact parse_batch_header_total. Qed.
 Print Assumptions C16_total_batch_header.
